@@ -51,6 +51,15 @@ static void process (const std::string& line)
       // the real libc source seeded through the constructor: the whole chain seed -> uniforms -> deviates
       else if (op == "bm.real") { long seed = std::stol (t[1]); unsigned n = std::stoul (t[2]); g_use_real = true; BoxMuller bm (seed);
         for (unsigned i=0;i<n;i++) o << hx ((double) bm()); o << " " << g_ucalls; g_use_real = false; }
+      // oracle (history): the stream of a seeded generator is a function of its seed, whatever else the program does with the
+      // other random helpers in between (random_init, random_double, random_value: they use random(), another source).
+      // Real libc drand48.  Output: deviates that differ from the undisturbed run, and whether the seed in force changed
+      else if (op == "o.c18.reseed") { long seed = std::stol (t[1]); unsigned n = std::stoul (t[2]); unsigned every = std::stoul (t[3]); g_use_real = true;
+        std::vector<float> a, b; { BoxMuller g (seed); for (unsigned i=0;i<n;i++) a.push_back (g.evaluate()); }
+        { BoxMuller g (seed); random_init ();
+          for (unsigned i=0;i<n;i++) { if (every && i % every == every - 1) random_init (); g_random.push_back (12345 + i); (void) random_double (); double v; g_random.push_back (777 + i); random_value (v, 2.0); b.push_back (g.evaluate()); } }
+        long bad = 0; for (unsigned i=0;i<n;i++) if (memcmp (&a[i], &b[i], 4) != 0) bad++;
+        o << " " << bad << " " << (g_seed48 == seed ? 0 : 1); g_use_real = false; g_random.clear(); }
       // oracle: the delivered stream against a reference polar transform written out here (same single/double
       // precision steps), which rejects w >= 1 and w == 0: number of positions that differ, and uniforms consumed differ
       else if (op == "o.c18.stream") { unsigned n = std::stoul (t[1]); std::vector<double> us; for (size_t i=2;i<t.size();i++) { us.push_back (rd (t[i])); g_uniform.push_back (us.back()); }
